@@ -121,25 +121,53 @@ func expectWrite(c *wcase) (verdict int, reason string, committed int64) {
 }
 
 type wresult struct {
-	msg, sig, outcome string
-	verdict           int
+	msg, sig string
+	outcome  woutcome
+	verdict  int
 }
 
 var sharedPool = newPool()
 var sharedBounded = newBoundedPool()
 
+type wdigests struct {
+	target, pre, other digest.Digest
+	known              map[string]digest.Digest
+}
+
+var wdigestCache sync.Map // string(content) -> *wdigests
+
+func digestsFor(content []byte) *wdigests {
+	if v, ok := wdigestCache.Load(string(content)); ok {
+		return v.(*wdigests)
+	}
+	w := &wdigests{target: digestOf(instanceName, content), pre: digestOf(instanceName, preexisting), other: digestOf(instanceName, otherContent)}
+	// The same hashes under other instance names must never appear.
+	w.known = map[string]digest.Digest{
+		"target": w.target, "pre": w.pre, "other": w.other,
+		"target@empty": digestOf("", content), "target@i": digestOf("i", content),
+	}
+	wdigestCache.Store(string(content), w)
+	return w
+}
+
+// woutcome is the observed behaviour class of one Write.
+type woutcome struct {
+	comp      string
+	code      string
+	stored    bool
+	responses int
+	allRead   bool
+}
+
+func (o woutcome) String() string {
+	return fmt.Sprintf("%s:%s:stored=%v:responses=%d:allread=%v", o.comp, o.code, o.stored, o.responses, o.allRead)
+}
+
 // runWrite runs the real ByteStream.Write handler on one scripted stream.
 func runWrite(c *wcase) wresult {
-	target := digestOf(instanceName, c.Content)
-	pre := digestOf(instanceName, preexisting)
-	other := digestOf(instanceName, otherContent)
-	// The same hashes under other instance names must never appear.
-	known := map[string]digest.Digest{
-		"target": target, "pre": pre, "other": other,
-		"target@empty": digestOf("", c.Content), "target@i": digestOf("i", c.Content),
-	}
+	wd := digestsFor(c.Content)
 	backend := newBackend(c.Fault)
-	backend.Store(pre, preexisting)
+	backend.Store(wd.pre, preexisting)
 	var pool bb_zstd.Pool = sharedPool
 	if c.Pool == "bounded" {
 		pool = sharedBounded
@@ -149,36 +177,41 @@ func runWrite(c *wcase) wresult {
 	if c.Term == "error" {
 		stream.term = errStream
 	}
-	for _, m := range c.Msgs {
-		stream.msgs = append(stream.msgs, &bytestream.WriteRequest{ResourceName: m.Name, WriteOffset: m.Off, Data: m.Data, FinishWrite: m.Finish})
+	stream.msgs = make([]*bytestream.WriteRequest, len(c.Msgs))
+	for i, m := range c.Msgs {
+		stream.msgs[i] = &bytestream.WriteRequest{ResourceName: m.Name, WriteOffset: m.Off, Data: m.Data, FinishWrite: m.Finish}
 	}
 
 	err := server.Write(stream)
 
 	verdict, reason, committed := expectWrite(c)
-	snap := snapshot(backend.ModelBlobAccess, known)
-	stored, isStored := snap["target"]
+	storedBytes, isStored := backend.Peek(wd.target)
+	stored := string(storedBytes)
 	res := wresult{verdict: verdict}
-	res.outcome = fmt.Sprintf("%s:%s:stored=%v:responses=%d:allread=%v", c.Comp, sim.Code(err), isStored, len(stream.responses), stream.pos == len(stream.msgs))
+	res.outcome = woutcome{c.Comp, sim.Code(err), isStored, len(stream.responses), stream.pos == len(stream.msgs)}
 	sigp := "bytestream-write-" + c.Comp + ":"
 	fail := func(sig, format string, a ...any) wresult {
 		res.sig = sigp + sig
-		res.msg = fmt.Sprintf(format, a...) + fmt.Sprintf(" [rpc result %v; reference verdict %s %s; backend %v]", err, verdictName(verdict), reason, snap)
+		res.msg = fmt.Sprintf(format, a...) + fmt.Sprintf(" [rpc result %v; reference verdict %s %s; backend %v]", err, verdictName(verdict), reason, snapshot(backend.ModelBlobAccess, wd.known))
 		return res
 	}
 	// Nothing but the target may change, whatever the verdict.
-	for name, v := range snap {
-		switch name {
-		case "target":
-		case "pre":
-			if v != string(preexisting) {
-				return fail("other-object-modified", "the pre-existing object changed to %q", v)
-			}
-		default:
-			return fail("foreign-key-visible", "key %s became visible in the backend", name)
-		}
+	wantKeys := 1
+	if isStored {
+		wantKeys = 2
 	}
-	if _, ok := snap["pre"]; !ok {
+	if preBytes, ok := backend.Peek(wd.pre); !ok || string(preBytes) != string(preexisting) || len(backend.Keys()) != wantKeys {
+		for name, v := range snapshot(backend.ModelBlobAccess, wd.known) {
+			switch name {
+			case "target":
+			case "pre":
+				if v != string(preexisting) {
+					return fail("other-object-modified", "the pre-existing object changed to %q", v)
+				}
+			default:
+				return fail("foreign-key-visible", "key %s became visible in the backend", name)
+			}
+		}
 		return fail("other-object-modified", "the pre-existing object disappeared")
 	}
 	if isStored && stored != string(c.Content) {
@@ -315,8 +348,16 @@ func (s *wspace) options(i int, cur int, deviated bool) []wmsg {
 
 type wlocal struct {
 	evals, nontrivial int64
-	verdicts          map[string]int64
-	outcomes          map[string]bool
+	vcount            [3]int64
+	outcomes          map[woutcome]bool
+}
+
+func (l *wlocal) verdicts() map[string]int64 {
+	m := map[string]int64{}
+	for i, n := range l.vcount {
+		m[verdictName(i)] = n
+	}
+	return m
 }
 
 func cloneCase(c *wcase) wcase {
@@ -366,7 +407,7 @@ func writeSeq(r *ev.Run, name string, maxLen, faultLen, invalidLen int) {
 			}
 			par.For(len(items), func(ix int) {
 				it := items[ix]
-				loc := wlocal{verdicts: map[string]int64{}, outcomes: map[string]bool{}}
+				loc := wlocal{outcomes: map[woutcome]bool{}}
 				c := wcase{Content: content, Comp: comp}
 				emit := func(msgs []wmsg) {
 					c.Msgs = msgs
@@ -382,13 +423,13 @@ func writeSeq(r *ev.Run, name string, maxLen, faultLen, invalidLen int) {
 							if len(msgs) >= 2 {
 								loc.nontrivial++
 							}
-							loc.verdicts[verdictName(res.verdict)]++
+							loc.vcount[res.verdict]++
 							loc.outcomes[res.outcome] = true
 							if res.msg != "" {
 								r.Violate(ev.Violation{Signature: res.sig, Sub: name, Message: res.msg, Case: cloneCase(&c)})
 							}
 							if (loc.evals+int64(ix)*7919)%sampleEvery == 0 {
-								r.Sample(map[string]any{"sub": name, "case": cloneCase(&c), "outcome": res.outcome, "reference": verdictName(res.verdict)})
+								r.Sample(map[string]any{"sub": name, "case": cloneCase(&c), "outcome": res.outcome.String(), "reference": verdictName(res.verdict)})
 							}
 						}
 					}
@@ -413,9 +454,9 @@ func writeSeq(r *ev.Run, name string, maxLen, faultLen, invalidLen int) {
 				} else {
 					rec(it.msgs, it.cur, it.deviated)
 				}
-				st.merge(loc.evals, loc.nontrivial, loc.verdicts)
+				st.merge(loc.evals, loc.nontrivial, loc.verdicts())
 				for o := range loc.outcomes {
-					st.outcomes.Add(o)
+					st.outcomes.Add(o.String())
 				}
 			})
 		}
@@ -474,7 +515,7 @@ func writeCuts(r *ev.Run, name string, maxParts int) {
 		seen := map[string]bool{}
 		valid := writeName(instanceName, v.comp, hashOf(v.content), int64(len(v.content)))
 		par.For(len(comps), func(ix int) {
-			loc := wlocal{verdicts: map[string]int64{}, outcomes: map[string]bool{}}
+			loc := wlocal{outcomes: map[woutcome]bool{}}
 			run := func(c wcase) {
 				key := ev.Hash(c)
 				seenMu.Lock()
@@ -489,13 +530,13 @@ func writeCuts(r *ev.Run, name string, maxParts int) {
 				if len(c.Msgs) >= 2 {
 					loc.nontrivial++
 				}
-				loc.verdicts[verdictName(res.verdict)]++
+				loc.vcount[res.verdict]++
 				loc.outcomes[res.outcome] = true
 				if res.msg != "" {
 					r.Violate(ev.Violation{Signature: res.sig, Sub: name, Message: res.msg, Case: c})
 				}
 				if (loc.evals*31+int64(ix))%50021 == 0 {
-					r.Sample(map[string]any{"sub": name, "case": c, "outcome": res.outcome, "reference": verdictName(res.verdict)})
+					r.Sample(map[string]any{"sub": name, "case": c, "outcome": res.outcome.String(), "reference": verdictName(res.verdict)})
 				}
 			}
 			for _, separateFinish := range []bool{false, true} {
@@ -574,9 +615,9 @@ func writeCuts(r *ev.Run, name string, maxParts int) {
 					}
 				}
 			}
-			st.merge(loc.evals, loc.nontrivial, loc.verdicts)
+			st.merge(loc.evals, loc.nontrivial, loc.verdicts())
 			for o := range loc.outcomes {
-				st.outcomes.Add(o)
+				st.outcomes.Add(o.String())
 			}
 		})
 	}
@@ -648,7 +689,7 @@ func writeNames(r *ev.Run, name string) {
 					if two {
 						sub.Nontrivial++
 					}
-					outcomes.Add(res.outcome)
+					outcomes.Add(res.outcome.String())
 					if res.msg != "" {
 						r.Violate(ev.Violation{Signature: res.sig, Sub: name, Message: res.msg, Case: c})
 					}
